@@ -3,7 +3,7 @@
 # extracted OCaml models and their drivers.
 set -e
 cd "$(dirname "$0")"
-export PYTHONPATH=/repo/src:/verif/harness PYTHONHASHSEED=0
+export PYTHONPATH=/repo/src:$(pwd)/harness PYTHONHASHSEED=0
 mkdir -p .work evidence replays
 /venv/bin/python harness/gen_consts.py
 ( cd coq && ./mkproject.sh && timeout 3400 make -j"$(nproc)" ) > .work/setup_make.log 2>&1 || { tail -40 .work/setup_make.log; exit 1; }
@@ -12,7 +12,7 @@ for f in coq/theories/Extract/Ex*.v; do
   ./driver/build.sh "$id"
 done
 /venv/bin/python - <<'PY'
-import sys; sys.path.insert(0, "/verif/harness")
+import sys; sys.path.insert(0, "harness")
 import common
 bad = common.hygiene()
 if bad:
